@@ -220,6 +220,12 @@ def run(ctx):
             cd = rng.sample(ecp, rng.randrange(1, 3))
             conf['child_dh'] = cd
             conf['child_dh_b'] = list(reversed(cd))
+        if k % 3 == 1:
+            # the two ends list the CHILD_SA algorithms in opposite orders (and with different key lengths)
+            conf['child_encr'] = ['aes128', 'aes256'] if k % 2 else ['aes256', 'aes128']
+            conf['child_encr_b'] = list(reversed(conf['child_encr']))
+            hs = rng.sample(hashes, 2)
+            conf['child_integ'], conf['child_integ_b'] = hs, list(reversed(hs))
         if k % 5 == 0:
             conf['rsa'] = True
         if k % 7 == 0:
